@@ -215,11 +215,18 @@ def kani_inject(scratch, crate):
     root = os.path.join(cdir, cfg.get('root', 'src/lib.rs'))
     with open(root, 'a') as f:
         f.write(f'\n{guard}\nmod verif_kani;\n')
+    # every harness module can be switched off with --cfg verif_skip_<module> (used when a module
+    # no longer compiles against the tree: a lost anchor must not take the other modules with it)
+    modrs = os.path.join(dst, 'mod.rs')
+    if os.path.exists(modrs):
+        t = open(modrs).read()
+        t = re.sub(r'^(\s*)((?:pub(?:\([a-z]+\))?\s+)?mod\s+([A-Za-z0-9_]+)\s*;)', lambda m: f'{m.group(1)}#[cfg(not(verif_skip_{m.group(3)}))]\n{m.group(1)}{m.group(2)}', t, flags=re.M)
+        open(modrs, 'w').write(t)
     for ch in cfg.get('children', []):
         parent = os.path.join(cdir, ch['parent'])
         rel = os.path.relpath(os.path.join(dst, ch['file']), os.path.dirname(parent))
         with open(parent, 'a') as f:
-            f.write(f'\n{guard}\n#[path = "{rel}"]\npub(crate) mod {ch["name"]};\n')
+            f.write(f'\n{guard}\n#[cfg(not(verif_skip_{ch["name"]}))]\n#[path = "{rel}"]\npub(crate) mod {ch["name"]};\n')
     for ap in cfg.get('append', []):
         # append-only additions to other files of the scratch copy (e.g. Cargo.toml tables)
         with open(os.path.join(cdir, ap['file']), 'a') as f:
@@ -387,21 +394,66 @@ def run_kani_job(scratch, job, playback=False, only=None):
     env = dict(os.environ)
     env['CARGO_NET_OFFLINE'] = 'true'
     env['CARGO_TARGET_DIR'] = os.path.join(scratch.dir, 'target-kani-' + crate + ('-' + job['tag'] if job.get('tag') else ''))
-    if job.get('fmt_direct'):
+    if True:
+        # (always set: jobs of one check share the scratch copy, so a dependency may already carry
+        # another job's injected harness module that needs the feature)
         # harnesses build a core::fmt::Formatter directly (unstable `formatting_options`, available on
         # Kani's nightly) so that Display/Debug impls are called statically instead of through the
         # function pointers of fmt::Arguments, which CBMC cannot resolve cheaply
         env['RUSTFLAGS'] = (env.get('RUSTFLAGS', '') + ' -Zcrate-attr=feature(formatting_options)').strip()
+    for m in job.get('_skip', []):
+        env['RUSTFLAGS'] += f' --cfg verif_skip_{m}'
     t0 = time.time()
     total_to = job.get('total_timeout', job.get('timeout', 600) * max(1, (len(harnesses) + nj - 1) // nj) + 600)
     killed = []
     out = run_watched(cmd, cdir, env, total_to, env['CARGO_TARGET_DIR'], job.get('mem_gb', 10), killed)
     wall = time.time() - t0
-    if job.get('io_error_unwind') and 'invalid loop identifier' in out:
-        # the function is not part of this goto program (or the toolchain changed): run without the limit
-        j2 = dict(job)
-        j2.pop('io_error_unwind')
-        return run_kani_job(scratch, j2, playback=playback, only=only)
+    if 'could not compile' in out and len(job.get('_skip', [])) < 6:
+        # A harness module does not compile against the current tree (an item it is anchored in was
+        # renamed or removed).  Switch off exactly the modules the compiler points at and run the
+        # rest; the harnesses of the switched-off modules are reported undecided ("lost anchor").
+        bad = set()
+        foreign = False
+        lines = out.split('\n')
+        for k, l in enumerate(lines):
+            if not l.startswith('error') or l.startswith('error: could not compile') or l.startswith('error: Failed'):
+                continue
+            # the location of an error is the first `-->` line after it (warnings have locations too)
+            for l2 in lines[k + 1:k + 4]:
+                m = re.search(r'-->\s+(\S+?):\d+:\d+', l2)
+                if m:
+                    path = m.group(1)
+                    if '/verif_kani/' in path:
+                        bad.add(os.path.basename(path)[:-3])
+                    else:
+                        foreign = True
+                    break
+        names = {c['file'][:-3]: c['name'] for c in cfg.get('children', [])}
+        skip = sorted({names.get(b, b) for b in bad} - set(job.get('_skip', [])))
+        core_mods = {'vk', 'mod'}
+        if skip and not foreign and not (set(skip) & core_mods):
+            where = {}
+            for fn in os.listdir(os.path.join(cdir, 'src', 'verif_kani')):
+                if fn.endswith('.rs'):
+                    t = open(os.path.join(cdir, 'src', 'verif_kani', fn)).read()
+                    for h in harnesses:
+                        if re.search(r'fn\s+' + re.escape(h) + r'\b|!\(\s*' + re.escape(h) + r'\s*,', t):
+                            where.setdefault(h, names.get(fn[:-3], fn[:-3]))
+            lost = [h for h in harnesses if where.get(h) in skip]
+            rest = [h for h in harnesses if h not in lost]
+            first_err = tail_errors(out)
+            results = []
+            if rest:
+                j2 = dict(job)
+                j2['_skip'] = list(job.get('_skip', [])) + skip
+                results = run_kani_job(scratch, j2, playback=playback, only=rest)
+            for h in lost:
+                results.append({'engine': 'kani', 'harness': h, 'result': UNDECIDED, 'checks': 0, 'failed': 0, 'failures': [],
+                                'covers': (0, 0), 'time_s': 0.0, 'values': None, 'crate': crate, 'cmd': ' '.join(cmd), 'job_wall_s': wall, 'raw': out[-3000:],
+                                'reason': f'lost anchor: harness module {where.get(h)} does not compile against the current tree: ' + first_err})
+            order = {h: i for i, h in enumerate(harnesses)}
+            results.sort(key=lambda r: order.get(r['harness'], 0))
+            return results
     per = parse_kani(out)
     results = []
     for h in harnesses:
@@ -421,6 +473,15 @@ def run_kani_job(scratch, job, playback=False, only=None):
         r['job_wall_s'] = wall
         r['raw'] = per.get(key, out[-3000:]) if key else out[-3000:]
         results.append(r)
+    if job.get('io_error_unwind') and 'invalid loop identifier' in out:
+        # the function is not part of some harness' goto program (no io::Error in reach, or the
+        # toolchain changed): those harnesses run again without the limit
+        again = [r['harness'] for r in results if r['result'] == UNDECIDED]
+        if again:
+            j2 = dict(job)
+            j2.pop('io_error_unwind')
+            redo = {r['harness']: r for r in run_kani_job(scratch, j2, playback=playback, only=again)}
+            results = [redo.get(r['harness'], r) for r in results]
     return results
 
 
